@@ -702,8 +702,10 @@ func (fr *frame) memImage(s memString) *Term {
 		}
 	}
 	flatten(*s.ptr)
-	if int64(total) != s.n*8 {
-		unsupported("key memory image is %d bits but hasher reads %d bytes (padding?)", total, s.n)
+	if int64(total) < s.n*8 {
+		// the hasher reads beyond the key object
+		fr.m().violationNow("hasher-reads-inside-the-key", fmt.Sprintf("hasher reads %d bytes of a %d-byte key", s.n, total/8))
+		fr.m().endPath("violation")
 	}
 	if total > 64 {
 		unsupported("keys wider than 8 bytes")
@@ -713,6 +715,13 @@ func (fr *frame) memImage(s memString) *Term {
 	for _, p := range parts {
 		img = mkBin("bvor", img, mkBin("bvshl", mkZext(p, 64), mkBV(64, uint64(sh))))
 		sh += p.sort.W
+	}
+	if int64(total) > s.n*8 {
+		// only a prefix of the key is read (little endian: the low bytes)
+		if s.n <= 0 {
+			return mkBV(64, 0)
+		}
+		img = mkBin("bvand", img, mkBV(64, mask(int(s.n*8))))
 	}
 	return img
 }
